@@ -537,6 +537,17 @@ impl Session {
         let peer = self.peers.get_mut(addr).ok_or(Error::PeerNotFound)?;
         let cmd = peer.handle_piece(chosen_index, &mut self.pieces_status, &self.metainfo);
         let _ = resp_ch.send(cmd);
+
+        // Last piece downloaded, files can be extracted (don't wait until some peer disconnects)
+        let have_all = self
+            .pieces_status
+            .iter()
+            .all(|status| *status == Status::Have);
+        if have_all && !self.files_extracted {
+            self.spawn_extractor().await;
+            self.files_extracted = true;
+        }
+
         Ok(true)
     }
 
